@@ -17,10 +17,27 @@ SHUFFLE_CALLS = 0
 _BOOTED = False
 
 
+SIM_RNG = random.Random(0)          # owned by the simulator: backs random.choices / random.sample (pokerkit.analysis)
+RNG_DRAWS = 0
+
+
 def set_run_key(key: str) -> None:
     """All "randomness" the engine sees in this run is a pure function of this key."""
     global _RUN_KEY
     _RUN_KEY = key.encode()
+    SIM_RNG.seed(int.from_bytes(hashlib.blake2b(_RUN_KEY, digest_size=8).digest(), 'big'))
+
+
+def sim_choices(population, weights=None, *, cum_weights=None, k=1):
+    global RNG_DRAWS
+    RNG_DRAWS += 1
+    return SIM_RNG.choices(population, weights, cum_weights=cum_weights, k=k)
+
+
+def sim_sample(population, k, *, counts=None):
+    global RNG_DRAWS
+    RNG_DRAWS += 1
+    return SIM_RNG.sample(population, k, counts=counts)
 
 
 def keyed_shuffle(x) -> None:
@@ -62,6 +79,8 @@ def boot():
     if not _BOOTED:
         assert 'pokerkit' not in sys.modules, 'boot() must run before pokerkit is imported'
         random.shuffle = keyed_shuffle
+        random.choices = sim_choices
+        random.sample = sim_sample
         if ROOT in sys.path:
             sys.path.remove(ROOT)
         sys.path.insert(0, ROOT)
@@ -75,5 +94,10 @@ def boot():
     for mod in (pokerkit.state, pokerkit.utilities):
         if getattr(mod, 'shuffle', None) is not keyed_shuffle:
             mod.shuffle = keyed_shuffle
+    import pokerkit.analysis
+    if getattr(pokerkit.analysis, 'choices', None) is not sim_choices:
+        pokerkit.analysis.choices = sim_choices
+    if getattr(pokerkit.analysis, 'sample', None) is not sim_sample:
+        pokerkit.analysis.sample = sim_sample
     _BOOTED = True
     return pokerkit
